@@ -47,15 +47,27 @@ def run_assets(rid0, kind, listing, subs, values, fmt="sm"):
         d = tree.path("song")
         if kind != "native" and rid0 % 3 == 0:
             d = "song"                       # the directory as a path relative to the filesystem's root (no leading slash)
-        for (state, vdir, vfile) in values:
+        import zlib
+        for (state0, vdir0, vfile0) in values:
             sf = (SMSimfile if fmt == "sm" else SSCSimfile).blank()
+            # per kind: this value, or (in a third of the cases, for some kinds) no value at all - the kinds of ONE Assets object
+            # are asked one after the other, some falling back to the patterns, some naming a file
+            pick = zlib.crc32(repr((sorted(listing), state0, vdir0, vfile0, kind)).encode("utf-8", "surrogatepass"))
+            per_kind = {}
+            for i, key in enumerate(KINDS):
+                if pick % 3 == 0 and (pick >> (3 + i)) & 1:
+                    per_kind[key] = ("absent" if (pick >> (12 + i)) & 1 else "empty", "", "")
+                else:
+                    per_kind[key] = (state0, vdir0, vfile0)
             for key in KINDS:
+                state, vdir, vfile = per_kind[key]
                 if state == "absent":
                     sf.pop(key, None)
                 elif state == "empty":
                     sf[key] = ""
                 else:
                     sf[key] = (vdir + "/" + vfile) if vdir else vfile
+            state, vdir, vfile = state0, vdir0, vfile0
             tree.listed.clear()
             try:
                 a = Assets(d, simfile=sf, filesystem=tree.fs)
@@ -64,7 +76,11 @@ def run_assets(rid0, kind, listing, subs, values, fmt="sm"):
                              "st": type(e).__name__, "ans": [dc.NONE, dc.NONE], "exists": False, "again": True})
                 continue
             seen_root = tree.listed[0][1] if tree.listed else list(listing)
-            for key, attr in KINDS.items():
+            order = list(KINDS.items())
+            if pick % 2:
+                order.reverse()                  # (asked in either order)
+            for key, attr in order:
+                state, vdir, vfile = per_kind[key]
                 rec = {"t": "asset", "id": rid0 + len(recs), "kind": key, "listing": [cps(n) for n in seen_root],
                        "subs": [{"name": cps(n), "listing": [cps(x) for x in subs[n]]} for n in subs],
                        "value": {"state": state, "dir": dc.n_(vdir), "file": dc.n_(vfile)}, "st": "ok", "ans": [dc.NONE, dc.NONE],
